@@ -80,7 +80,10 @@ class URL:
         )
 
     def is_part_of(self, url: "URL"):
-        return str(url).startswith(str(self))
+        base = str(self).rstrip("/")
+        other = str(url)
+
+        return other == base or other.startswith(f"{base}/")
 
     def __str__(self) -> str:
         return self.without_auth()
